@@ -984,7 +984,7 @@ func hitsInCurrentPage(req *SearchRequest, hits []*search.DocumentMatch) []*sear
 		hits = search.DocumentMatchCollection{}
 	}
 	// now trim to the correct size
-	if req.Size > 0 && len(hits) > req.Size {
+	if req.Size >= 0 && len(hits) > req.Size {
 		hits = hits[0:req.Size]
 	}
 	return hits
